@@ -15,5 +15,24 @@ let handle = function
        | None -> "fuel"
        | Some l -> let l = List.sort compare (List.map int_of_nat l) in
                    if l = [] then "-" else String.concat "." (List.map string_of_int l))
+  | ["cgenc"; spec] ->
+      (* commits separated by ';', parents by '.', "_" = no parents, "x" = a parent that is not in the file;
+         answer: rows p1,p2;... | extra edges e,e,... | parents read back ("!" = ValueError) *)
+      let commit c = if c = "_" then [] else List.map (fun p -> if p = "x" then None else Some (z_of_int (int_of_string p))) (String.split_on_char '.' c) in
+      let cs = List.map commit (String.split_on_char ';' spec) in
+      let (rows, edges) = encode_graph cs in
+      let zs z = string_of_int (int_of_z z) in
+      let dec = decode_graph (rows, edges) in
+      let one = function None -> "!" | Some [] -> "_" | Some l -> String.concat "." (List.map zs l) in
+      Printf.sprintf "%s | %s | %s" (String.concat ";" (List.map (fun (a, b) -> zs a ^ "," ^ zs b) rows))
+        (if edges = [] then "_" else String.concat "," (List.map zs edges)) (String.concat ";" (List.map one dec))
+  | ["cgdec"; rows; edges] ->
+      (* slots and extra edges as found in a file -> the parents the model reads *)
+      let z s = z_of_int (int_of_string s) in
+      let rs = List.map (fun r -> match String.split_on_char ',' r with [a; b] -> (z a, z b) | _ -> failwith "row") (String.split_on_char ';' rows) in
+      let es = if edges = "_" then [] else List.map z (String.split_on_char ',' edges) in
+      let zs x = string_of_int (int_of_z x) in
+      let one = function None -> "!" | Some [] -> "_" | Some l -> String.concat "." (List.map zs l) in
+      String.concat ";" (List.map one (decode_graph (rs, es)))
   | _ -> "EXN bad request"
 let () = serve handle
